@@ -8,6 +8,14 @@ from props_meta import META, PENDING_REASON  # noqa
 
 VERIF = os.path.dirname(os.path.dirname(os.path.abspath(__file__)))
 ids = [json.loads(l)['id'] for l in open(os.path.join(VERIF, 'properties.jsonl'))]
+from props_meta import COMMON_NOTE  # noqa
+metadir = os.path.join(VERIF, 'harness', 'meta')
+if os.path.isdir(metadir):
+    for fn in sorted(os.listdir(metadir)):
+        if fn.endswith('.json'):
+            d = json.load(open(os.path.join(metadir, fn)))
+            d['note'] = COMMON_NOTE + d.get('note', '')
+            META.setdefault(fn[:-5], d)
 
 checks = []
 na = []
